@@ -13,6 +13,11 @@ NA_FIXED = {
 }
 
 CLAIMS = {
+    'C07': dict(
+        technique="static failure-atomicity analysis over rustc MIR: interprocedural mutation summaries through &mut parameters x reachability of Err exits, with same-pure-predicate discharge under condition-pruned dominance",
+        text="Decides, for all paths of every function that takes a &mut codec/work object and returns Result, that no write to the object can be followed by an Err return (two exact exceptions: the failing call is itself an in-scope callee; or the failure is the Err edge of a pure validation already known true with the same arguments). 'Behaves as if the call had not been made' follows from 'wrote nothing'. Found defect F1 on the pinned tree (repaired by fix: c681adf).",
+        note="Trusted: the explicit table of external mutators/derivers (unknown externals are treated as writers); purity => same result for same arguments. Later panics for other reasons belong to C06.",
+        design="§4 C07"),
     'C14': dict(
         technique="static effect + dominance analysis over rustc MIR (target-feature need propagation, detection-edge dominance, sibling agreement), x86_64/aarch64/i686/+avx2 builds",
         text="Decides the property's structure for all paths and all CPU feature subsets at once: every construction of a SIMD engine and every static call of SIMD code outside the engine is dominated by the true edge of runtime detection covering the features that code is compiled for; weaker choices are reachable only through false edges of stronger detections; both selections (new, eval_poly) agree. Not a run: no feature mask is needed because the rule quantifies over CFG paths.",
